@@ -134,12 +134,49 @@ func c10Parents(c *Ctx) *RuleResult {
 	u := p.Unit(builderPkg, "outputNode.createParentDirectories")
 	info := u.Info()
 	n := 0
+	// the descent may go through a helper that enters the child directory and recurses
+	units := p.UnitsIn(builderPkg)
+	viaHelper := mayDo(units, func(x *FuncUnit, m ast.Node) bool {
+		call, ok := m.(*ast.CallExpr)
+		return ok && x.Fn != u.Fn && calleeOf(x.Info(), call) == u.Fn
+	})
+	type site struct {
+		unit *FuncUnit
+		call ast.Node
+		pre  []Guard // guards collected on the way from the recursive function
+	}
+	var sites []site
 	for _, cs := range CallsTo([]*FuncUnit{u}, u.Fn) {
+		sites = append(sites, site{u, cs.Node, nil})
+	}
+	ast.Inspect(u.Decl.Body, func(m ast.Node) bool {
+		call, ok := m.(*ast.CallExpr)
+		if !ok {
+			return true
+		}
+		fn := calleeOf(info, call)
+		if fn == nil || fn == u.Fn || !viaHelper[fn] {
+			return true
+		}
+		pre := flattenGuards(GuardsOf(info, u.Decl.Body, call))
+		for _, hu := range units {
+			if hu.Fn != fn {
+				continue
+			}
+			for _, cs := range CallsTo([]*FuncUnit{hu}, u.Fn) {
+				sites = append(sites, site{hu, cs.Node, pre})
+			}
+		}
+		return true
+	})
+	for _, st := range sites {
 		n++
 		construct := constructOf(u, "recursive descent")
 		bad := ""
-		for _, g := range flattenGuards(GuardsOf(info, u.Decl.Body, cs.Node)) {
-			if guardErrIsNil(info, g, "") {
+		sinfo := st.unit.Info()
+		gs := append(append([]Guard{}, st.pre...), flattenGuards(GuardsOf(sinfo, st.unit.Decl.Body, st.call))...)
+		for _, g := range gs {
+			if guardErrIsNil(sinfo, g, "") {
 				continue
 			}
 			// mentions the child's own subdirectories (len(..) > 0, != nil, ...)
@@ -154,15 +191,15 @@ func c10Parents(c *Ctx) *RuleResult {
 				continue
 			}
 			// err != nil && !os.IsExist(err) being false is fine as well: it is the error filter itself
-			if !g.Pos && mentionsErrVar(info, g.Cond) && isConj(g.Cond) && conjHasErrNotNil(info, g.Cond) {
+			if !g.Pos && mentionsErrVar(sinfo, g.Cond) && isConj(g.Cond) && conjHasErrNotNil(sinfo, g.Cond) {
 				continue
 			}
 			bad = g.String()
 		}
 		if bad == "" {
-			r.ok(construct, posOf(p, cs.Node), "conditioned only on success and on the child having subdirectories")
+			r.ok(construct, posOf(p, st.call), "conditioned only on success and on the child having subdirectories")
 		} else {
-			r.bad(c.Prop, construct, posOf(p, cs.Node), "the descent into a child directory is skipped under the additional condition "+bad+" (e.g. when the directory already exists because it is part of the input root): deeper parent directories of declared outputs are not created before the command runs")
+			r.bad(c.Prop, construct, posOf(p, st.call), "the descent into a child directory is skipped under the additional condition "+bad+" (e.g. when the directory already exists because it is part of the input root): deeper parent directories of declared outputs are not created before the command runs")
 		}
 	}
 	if n == 0 {
